@@ -21,24 +21,24 @@ variable {M : Type}
 admissible stream; the messages delivered so far are exactly the messages whose last
 character has arrived — each once, in order, and no later than the `process` call that
 follows the arrival of that character (apply the theorem to every prefix of the partition) -/
-theorem C02_abstract (tryParse : Str → Option M) (tags : List Str) (threshold : Option Nat)
-    (hA1 : ParserNeedsOpener tryParse tags) (hA2 : TagsOk tags)
-    (segs : List (Seg M)) (final : Str) (hok : StreamOk tryParse tags threshold segs final)
+theorem C02_abstract (parse : Str → ParseRes M) (tags : List Str) (threshold : Option Nat)
+    (hA1 : ParserNeedsOpener parse tags) (hA2 : TagsOk tags)
+    (segs : List (Seg M)) (final : Str) (hok : StreamOk parse tags threshold segs final)
     (pieces : List Str) (hpre : pieces.flatten <+: encode segs final) :
-    (session tryParse tags threshold [] pieces).1.flatten =
+    (session parse tags threshold [] pieces).1.flatten =
       (segs.take (countDone segs pieces.flatten.length)).map (·.msg) := by
-  have h := session_stream tryParse tags threshold hA1 hA2 final pieces segs hok []
-    (by simpa using hpre) (countDone_zero tryParse tags threshold segs final hok)
+  have h := session_stream parse tags threshold hA1 hA2 final pieces segs hok []
+    (by simpa using hpre) (countDone_zero parse tags threshold segs final hok)
   simpa [cleanup_nil] using h
 
 /-- fragmentation independence, as a corollary: two partitions of the same prefix deliver the same sequence -/
-theorem C02_fragmentation_independent (tryParse : Str → Option M) (tags : List Str) (threshold : Option Nat)
-    (hA1 : ParserNeedsOpener tryParse tags) (hA2 : TagsOk tags)
-    (segs : List (Seg M)) (final : Str) (hok : StreamOk tryParse tags threshold segs final)
+theorem C02_fragmentation_independent (parse : Str → ParseRes M) (tags : List Str) (threshold : Option Nat)
+    (hA1 : ParserNeedsOpener parse tags) (hA2 : TagsOk tags)
+    (segs : List (Seg M)) (final : Str) (hok : StreamOk parse tags threshold segs final)
     (p q : List Str) (hp : p.flatten <+: encode segs final) (hpq : p.flatten = q.flatten) :
-    (session tryParse tags threshold [] p).1.flatten = (session tryParse tags threshold [] q).1.flatten := by
-  rw [C02_abstract tryParse tags threshold hA1 hA2 segs final hok p hp,
-    C02_abstract tryParse tags threshold hA1 hA2 segs final hok q (hpq ▸ hp), hpq]
+    (session parse tags threshold [] p).1.flatten = (session parse tags threshold [] q).1.flatten := by
+  rw [C02_abstract parse tags threshold hA1 hA2 segs final hok p hp,
+    C02_abstract parse tags threshold hA1 hA2 segs final hok q (hpq ▸ hp), hpq]
 
 /-- (A2) on the repository's class table: no tag contains `'<'` -/
 theorem generated_tagsOk : TagsOk (Generated.messageClasses.map (·.tag)) := by
@@ -54,8 +54,8 @@ theorem generated_thresholds : Generated.defaultThreshold = some 2048 ∧ Genera
 /-! non-vacuity: a toy parser for which a two-message stream with junk is `StreamOk` -/
 
 def toyTags : List Str := [s "a", s "b"]
-def toyParse (x : Str) : Option Nat :=
-  if x = s "<a/>" then some 1 else if x = s "<b>x</b>" then some 2 else none
+def toyParse (x : Str) : ParseRes Nat :=
+  if x = s "<a/>" then .msg 1 else if x = s "<b>x</b>" then .msg 2 else .notXml
 
 example : (session toyParse toyTags (some 16) [] [s "??<a", s "/>\n<?", s "j?><b>x<", s "/b>zz"]).1 = [[], [1], [], [2]] := by
   decide +kernel
